@@ -124,10 +124,13 @@ func init() {
 				p := w.App.OracleKeeper.GetParams(w.ReadCtx())
 				p.PriceExpiryTime, p.LifeTimeInBlocks = exp*2, life+3
 				last := feeders[len(feeders)-1].S()
+				// the removal list names accounts that are not feeders (never were / resigned) before and
+				// after the one that is
+				rm := []string{u[7].S(), feeders[1].S(), u[4].S()}
 				if m16 != nil {
-					m16.PendingGov([]string{last, u[6].S()}, []string{feeders[1].S()})
+					m16.PendingGov([]string{last, u[6].S()}, rm)
 				}
-				if w.GovExec("oracle", &oracletypes.MsgAddPriceFeeders{Authority: w.Gov, Feeders: []string{last, u[6].S()}}, &oracletypes.MsgRemovePriceFeeders{Authority: w.Gov, Feeders: []string{feeders[1].S()}}, &oracletypes.MsgUpdateParams{Authority: w.Gov, Params: p}) {
+				if w.GovExec("oracle", &oracletypes.MsgAddPriceFeeders{Authority: w.Gov, Feeders: []string{last, u[6].S()}}, &oracletypes.MsgRemovePriceFeeders{Authority: w.Gov, Feeders: rm}, &oracletypes.MsgUpdateParams{Authority: w.Gov, Params: p}) {
 					c.Ev("gov_feeder_change")
 				}
 			}
